@@ -41,10 +41,10 @@ reg(
     H("c17_header_roundtrip_and_garbage", "vecdb", "C17", mem=6, timeout=600, memsafe=True,
       desc="HeaderInner: from_bytes(to_bytes(h)) = h for all versions/stamps/formats; arbitrary bytes of length 0..HEADER_OFFSET+1 give Err or a header echoing the bytes with a valid format tag",
       bounds="all field values; inputs 0..33 arbitrary bytes", functions=["vecdb::HeaderInner::{to_bytes,from_bytes}"], stubs=[FMT]),
-    H("c17_change_cursor_bounds", "vecdb", "C17", mem=6, timeout=600, memsafe=True,
+    H("c17_change_cursor_bounds", "vecdb", "C17", mem=6, timeout=600, memsafe=True, also=("C16",),
       desc="ChangeCursor::{skip,read_values}: symbolic 64-bit counts and element sizes never overflow or read past the input (checked_mul / checked_add guard every read)",
       bounds="input 0..24 arbitrary bytes; count any usize; element size in {4,8,16,usize::MAX/2}", functions=["vecdb::ChangeCursor::{skip,read_values,check_remaining}"], stubs=[FMT, WCAP0]),
-    H("c16_parse_change_data_any_bytes", "vecdb", "C17", mem=8, timeout=900, memsafe=True,
+    H("c16_parse_change_data_any_bytes", "vecdb", "C17", mem=20, timeout=1500, memsafe=True, also=("C16", "C13"),
       desc="parse_change_data on an arbitrary byte string: Err(WrongLength|Overflow|Underflow) or a ChangeData whose vectors fit inside the input and echo its fields; no panic, allocation bounded by the input",
       bounds="record = 0..56 arbitrary bytes (truncation at every offset and arbitrary length fields included); element size 4", functions=["vecdb::ReadWriteBaseVec::parse_change_data", "vecdb::ChangeCursor"], stubs=[FMT, WCAP0]),
 )
@@ -73,7 +73,7 @@ for (n, d, f, shapes) in [
 ]:
     reg(H(n, "rawdb", "C02", mem=8, timeout=1500, group=True, desc=d + " [shapes: " + shapes + "]",
           bounds=L1B, functions=f, stubs=[FMT], also=("C01", "C05", "C10", "C12"),
-          quick_for={"c02_l1_last_": {"C02", "C05", "C10", "C12"}, "c02_l1_promote_": {"C02", "C01", "C10", "C12"},
+          quick_for={"c02_l1_last_": {"C02", "C05", "C10", "C12"}, "c02_l1_promote_": {"C02", "C01", "C05", "C10", "C12"},
                      "c02_l1_find_": {"C02"}, "c02_l1_compress_": {"C02"}, "c02_l1_remove_": {"C02"},
                      "c02_l1_move_": {"C02"}}[n]))
 
@@ -115,7 +115,7 @@ WD = ("one real write step from an arbitrary INV state: placement algebra (new s
       "new_start+offset, old bytes copied iff relocated, copy before write before slot), frame (no other region's extent or "
       "metadata touched), INV re-established pointwise, best-fit reuse, slot written with final values; refused write "
       "(offset beyond end / growth failure) has no effect")
-for (n, q) in [("c01_write_x1h4r1", {"C01", "C02"}), ("c01_write_x1p1", {"C05"}), ("c01_write_r1x1", {"C13"}),
+for (n, q) in [("c01_write_x1h4r1", set()), ("c01_write_x1p1", set()), ("c01_write_r1x1", set()),
                ("c01_write_x1h1r1", set()), ("c01_write_x1r1h2r1h4", set()), ("c01_write_x1r1h2", set()),
                ("c01_write_x2r1", set()), ("c01_write_h1x1r1", set()), ("c01_write_x1h2p1", set())]:
     reg(H(n, "rawdb", "C01", mem=40, timeout=3000, desc=WD, bounds=L2B, functions=L2F, stubs=[FMT, SBG, SLOT],
@@ -124,10 +124,10 @@ for (n, q) in [("c01_write_x1h4r1", {"C01", "C02"}), ("c01_write_x1p1", {"C05"})
 L2M = ("database world of concrete shape and extent sizes (2-3 extents); symbolic region content lengths, metadata states, "
        "dirty bounds, file length, operation arguments; ghost-mode files")
 reg(
-    H("c01_truncate_step", "rawdb", "C01", mem=12, timeout=900, also=("C13",), quick_for={"C01", "C13"},
+    H("c01_truncate_step", "rawdb", "C01", mem=12, timeout=900, also=("C13", "C11"), quick_for={"C01", "C13", "C11"},
       desc="Region::truncate(from) from an arbitrary state: from < len sets the length and writes exactly the slot; from == len is a no-op; from > len is refused with no effect; layout, other regions, data bytes untouched; no lock left held",
       bounds=L2M + "; from any usize", functions=["rawdb::Region::truncate", "rawdb::RegionMetadata::{set_len,write_if_dirty}"], stubs=[FMT, SBG, SLOT, TOVEC]),
-    H("c01_rename_step", "rawdb", "C01", mem=14, timeout=900, also=("C13",), quick_for={"C01", "C13"},
+    H("c01_rename_step", "rawdb", "C01", mem=14, timeout=900, also=("C13", "C11"), quick_for={"C01", "C13", "C11"},
       desc="Region::rename: onto a fresh name updates name index + metadata + slot; onto an existing name (another region's or its own) is refused and changes nothing (index, metadata id, dirty state, no event)",
       bounds=L2M + "; target name in {other region's, own, fresh}; one-byte names", functions=["rawdb::Region::rename", "rawdb::Regions::rename", "rawdb::RegionMetadata::set_id"], stubs=[FMT, SBG, SLOT, TOVEC]),
     H("c01_remove_step", "rawdb", "C01", mem=30, timeout=1800, also=("C02", "C05", "C12"), tier="thorough",
@@ -136,7 +136,7 @@ reg(
     H("c01_remove_last_step", "rawdb", "C01", mem=30, timeout=1800, also=("C02",), tier="thorough",
       desc="Region::remove of the last region behind a hole", bounds=L2M + " [H1 x1]",
       functions=["rawdb::Region::remove"], stubs=[FMT, SBG, SLOT, TOVEC]),
-    H("c13_remove_refused_no_effect", "rawdb", "C13", mem=36, timeout=2400, also=("C02",), quick_for={"C13"},
+    H("c13_remove_refused_no_effect", "rawdb", "C13", mem=36, timeout=2400, also=("C02",), tier="thorough",
       desc="Region::remove while another handle to the region is alive is refused (RegionStillReferenced) and has no effect: layout classification of every byte, name index, slot table unchanged, no event",
       bounds=L2M + " [R1 x2 H1], one extra live handle", functions=["rawdb::Region::remove", "rawdb::Layout::remove_region", "rawdb::Regions::remove"], stubs=[FMT, SBG, SLOT, TOVEC]),
 )
@@ -147,10 +147,10 @@ reg(
       desc="Database::flush from an arbitrary state (2 regions with symbolic dirty states/bounds, 1 pending hole), with symbolic sync/flush failures: data async-flush range covers every dirty byte; regions async flush; fdatasync(data) strictly before fdatasync(regions); regions marked clean only after both; pending holes promoted only after both syncs (last effect) and never on a failed flush; no data/slot/length event; no lock left held",
       bounds=L2M + " [R1 R1 P1]; fault flags fail_sync, fail_flush symbolic", functions=["rawdb::Database::flush", "rawdb::Regions::{flush,sync_data}", "rawdb::Region::{take_dirty_bounds,restore_dirty_bounds}", "rawdb::RegionMetadata::{needs_flush,mark_clean}"],
       stubs=[FMT, SBG, PROM], assumes=["a region in state NEEDS_WRITE (never written) has no dirty data range"]),
-    H("c11_flush_lock_order", "rawdb", "C11", mem=30, timeout=2400,
+    H("c11_flush_lock_order", "rawdb", "C11", mem=30, timeout=2400, tier="thorough",
       desc="lock tap over Database::flush: every lock request happens while only locks of strictly smaller class (layout < regions < mmap < file < meta < dirty_bounds) are held, no held lock is requested again, nothing held at return",
       bounds=L2M + " [R1 P1]", functions=["rawdb::Database::flush (all lock acquisitions)"], stubs=[FMT, SBG, PROM]),
-    H("c11_compact_lock_order", "rawdb", "C11", mem=30, timeout=2400,
+    H("c11_compact_lock_order", "rawdb", "C11", mem=30, timeout=3000, tier="thorough",
       desc="lock tap over Database::compact (flush + punch_holes): same obligations; in particular the file read guard is released before file() is taken again for the final sync",
       bounds=L2M + " [R2 H1]", functions=["rawdb::Database::{compact,punch_holes,approx_has_punchable_data}", "rawdb::HolePunch::punch"], stubs=[FMT, SBG, PROM]),
     H("c12_compact_step", "rawdb", "C12", mem=36, timeout=3000, tier="thorough",
@@ -175,13 +175,51 @@ for (n, d, f, q) in [
     ("c06_max_step", "compute_max (monotonic deque rebuilt on resume): equals the from-scratch windowed maximum", ["vecdb::EagerVec::{compute_max,compute_monotonic_window}"], True),
     ("c06_cumulative_step", "compute_cumulative: equals the from-scratch prefix sum", ["vecdb::EagerVec::compute_cumulative"], True),
 ]:
-    reg(H(n, "vecdb", "C06", mem=10, timeout=1500, tier="quick" if q else "thorough", desc=d, bounds=C06B, functions=f,
+    reg(H(n, "vecdb", "C06", mem=24, timeout=1800, tier="quick" if q else "thorough", desc=d, bounds=C06B, functions=f,
           stubs=[FMT, WCAP0], assumes=["max_from <= c (the caller's obligation in the statement)", "c <= source length"]))
+reg(H("c19_version_persist_step", "vecdb", "C19", mem=10, timeout=1500,
+      desc="validate_computed_version_or_reset followed by write(): the presented combined version is recorded, marks the header modified exactly when it changed, resets exactly when it changed and results existed, is persisted by the next write, and a second call with the same version is a no-op",
+      bounds="storage model in an arbitrary state (length <= 3); recorded < 2000, dependency version < 1000",
+      functions=["vecdb::WritableVec::validate_computed_version_or_reset", "vecdb::Header::{update_computed_version,modified}"], stubs=[FMT, WCAP0]))
 reg(H("c19_version_step", "vecdb", "C19", mem=10, timeout=1500,
       desc="compute_transform with symbolic recorded vs presented combined version: changed => everything discarded (reset) and re-evaluated from index 0, new version recorded and marked for write-back; unchanged => nothing below min(max_from, len) re-evaluated or altered, no reset",
       bounds=C06B + "; source version < 1000, recorded version < 2000 (any relation: equal, higher, lower)",
       functions=["vecdb::WritableVec::validate_computed_version_or_reset", "vecdb::Header::{update_computed_version,modified,computed_version}", "vecdb::EagerVec::compute_init"],
       stubs=[FMT, WCAP0]))
+
+
+# ---------------------------------------------------------------------------------------------
+# vecdb raw formats in contract mode (real ReadWriteRawVec over a tiny real data file)
+# ---------------------------------------------------------------------------------------------
+CMB = ("contract mode: ReadWriteRawVec<usize,u32,BytesStrategy> built directly over a 48-byte symbolic data file (rawdb: one region "
+       "at offset 0, allocator cut); on-disk elements <= 3, stored_len symbolic (<= on-disk: equal or truncated), pushed <= 2, "
+       "deleted slots <= 1-2 symbolic indices, updated slots <= 1-2 symbolic (index, value), never both for one index; "
+       "symbolic (from,to) incl. reversed/out of bounds/usize::MAX; symbolic probe index")
+CMS = [FMT, WCAP0, SBG, "rawdb::Region::open_db_read_only_file -> cut (buffered file-IO scan back-end, ranges > 1 GiB, outside the claim)",
+       "rawdb layout lock -> cut (contract mode: sizes bounded so the region never grows)"]
+reg(
+    H("c08_raw_point_reads", "vecdb", "C08", mem=8, timeout=900, also=("C03",),
+      desc="index-addressed reads of the read-write raw vector (collect_one_at, get_any_or_read_at) return the reference element of that index, None if deleted or out of range - deleted slots in the stored part and in the pushed tail, updated slots",
+      bounds=CMB, functions=["vecdb::ReadWriteRawVec::{collect_one_at,get_any_or_read_at,unchecked_read_at,has_dirty_stored}", "rawdb::Reader::{new,prefixed}"], stubs=CMS),
+    H("c08_raw_range_clean", "vecdb", "C08", mem=10, timeout=1200,
+      desc="fold_range_at / try_fold_range_at on a vector without overlay: exactly the reference elements of the clamped range in order (mmap source + pushed tail)",
+      bounds=CMB, functions=["vecdb::ReadWriteRawVec::{fold_range_at,try_fold_range_at,fold_source,try_fold_source}", "vecdb::RawMmapSource", "vecdb::ReadWriteBaseVec::{fold_pushed,try_fold_pushed}"], stubs=CMS),
+    H("c08_raw_range_dirty", "vecdb", "C08", mem=10, timeout=1200, also=("C03",),
+      desc="fold_range_at / try_fold_range_at with deleted and updated slots: exactly the non-deleted reference elements in index order (fold_dirty / try_fold_dirty merging holes, updated, pushed)",
+      bounds=CMB + "; at least one deleted slot", functions=["vecdb::ReadWriteRawVec::{fold_dirty,try_fold_dirty}"], stubs=CMS),
+    H("c03_raw_edit_step", "vecdb", "C03", mem=12, timeout=1500, also=("C13",),
+      desc="one editing step (truncate_if_needed_at / update_at / delete_at / push) from an arbitrary valid overlay state equals the reference model pointwise; refused update (index beyond the length) has no effect; stamp unchanged; a slot is never both deleted and updated",
+      bounds=CMB, functions=["vecdb::ReadWriteRawVec::{truncate_if_needed_at,truncate_dirty_at,update_at,delete_at,push}", "vecdb::ReadWriteBaseVec::truncate_pushed"], stubs=CMS),
+    H("c03_raw_write_step", "vecdb", "C03", mem=30, timeout=2400, tier="thorough", also=("C09",),
+      desc="write() from an arbitrary valid state without deleted slots: afterwards every element is on disk at HEADER_OFFSET + 4*i (file bytes compared), region length = header + 4*len, pushed/updated empty, published stored_len = len, reads unchanged",
+      bounds=CMB + "; no deleted slots (holes region needs the allocator)", functions=["vecdb::ReadWriteRawVec::write", "rawdb::Region::{truncate_write,truncate,batch_write_each}", "rawdb::write_to_mmap (bounded real copy)"], stubs=CMS),
+    H("c20_raw_rw_reads_expanded", "vecdb", "C20", mem=10, timeout=1200, memsafe=True,
+      desc="post-rollback state (logical length above the on-disk length, missing values in the overlay): reads through the read-write vector are served from the overlay for indices beyond the region's length; CBMC pointer checks on (any fetch outside the 48-byte file is a failure)",
+      bounds=CMB + "; expanded states", functions=["vecdb::ReadWriteRawVec::collect_one_at"], stubs=CMS),
+    H("c20_raw_ro_clone_reads_expanded", "vecdb", "C20", mem=10, timeout=1200, memsafe=True, known="F04",
+      desc="same state observed through read_only_clone(): every served index must be backed by region bytes",
+      bounds=CMB + "; expanded states", functions=["vecdb::ReadOnlyRawVec::collect_one_at"], stubs=CMS),
+)
 
 
 def select(prop, tier, seed=0):
